@@ -13,8 +13,12 @@ Init == l = 1 /\ viol = {} /\ hist = 0 /\ base = Zero /\ expiry = Zero
 Check(e) ==
   IF e.ev = "AnteCase" THEN
      LET a == Admit(e.base, e.bonded, e.tx) IN
+     \* e.ok: the transaction, really signed, through the ante handler the production app has installed (whole chain);
+     \* e.okdec: the same messages through the stake-change decorator alone
      (IF e.ok /\ ~a THEN {"AdmittedOnlyWithinFivePercentOfBaseline"} ELSE {})
      \cup (IF ~e.ok /\ a THEN {"WithinBoundIsAdmitted"} ELSE {})
+     \cup (IF "okdec" \in DOMAIN e /\ e.okdec /\ ~a THEN {"AdmittedOnlyWithinFivePercentOfBaseline"} ELSE {})
+     \cup (IF "okdec" \in DOMAIN e /\ ~e.okdec /\ a THEN {"WithinBoundIsAdmitted"} ELSE {})
   ELSE IF "tracker" \in DOMAIN e.post.reporter THEN
      LET tr == e.post.reporter.tracker IN
      IF e.ev = "EndBlock" /\ e.ok
